@@ -342,7 +342,53 @@ struct Explorer {
         for (auto &st : layer) delete st.obj;
     }
 
+    // Size sweep: bulk-load of n distinct keys followed by F inserts of fresh distinct keys (no branching): level sizes hit every
+    // "exact fit" of a buffer flush into the free room of a level, which small key alphabets cannot reach.
+    void sweep(int max_n, int F, int placement) {
+        for (int n = 0; n <= max_n && !run.deadline_passed(); ++n) {
+            std::vector<std::pair<K, int>> init;
+            for (int i = 0; i < n; ++i) init.emplace_back(K(1000 + 4 * i), i % 2);
+            std::vector<K> saved = keys;
+            keys.clear();
+            for (int f = 0; f < F; ++f) keys.push_back(placement == 0 ? K(1002 + 4 * f) : placement == 1 ? K(10 + f) : K(100000 + 3 * f));   // interleaved / below / above
+            queries.clear(); { std::set<K> q; for (K k : keys) { q.insert(k); q.insert(K(k + 1)); } for (auto &p : init) q.insert(p.first); q.insert(std::numeric_limits<K>::min()); queries.assign(q.begin(), q.end()); if (queries.size() > 40) queries.resize(40); }
+            State s; s.obj = nullptr;
+            std::string istr = "bulk" + std::to_string(n);
+            run.set_case(cfg_str + " sweep n=" + std::to_string(n) + " placement=" + std::to_string(placement) + " (construct)");
+            try { s.obj = make_initial(init, s.model); } catch (const std::exception &e) { run.violation(cfg_str + " sweep n=" + std::to_string(n), std::string("construction threw: ") + e.what()); keys = saved; continue; }
+            run.add(cn.initial_states); run.add(cn.states);
+            bool ok = check_state(*s.obj, s.model, cfg_str + " sweep n=" + std::to_string(n) + " placement=" + std::to_string(placement) + " step=0");
+            for (int f = 0; f < F && ok; ++f) {
+                std::string cs = cfg_str + " sweep n=" + std::to_string(n) + " placement=" + std::to_string(placement) + " step=" + std::to_string(f + 1);
+                run.set_case(cs);
+                bool buffer_full = s.obj->levels[0].size() >= s.obj->buffer_max_size; size_t before = nonempty_levels(*s.obj);
+                apply(*s.obj, s.model, Op{0, f, f % 2});
+                run.add(cn.transitions); run.add(cn.states);
+                if (buffer_full && s.obj->levels[0].empty()) { run.add(cn.merges); if (before >= 3) run.add(cn.deep_merges); }
+                if (nonempty_levels(*s.obj) >= 3) run.add(cn.levels3);
+                run.add(cn.nontrivial);
+                ok = check_state(*s.obj, s.model, cs);
+            }
+            if (n == 11 && placement == 0) run.sample(cfg_str + " sweep n=11 placement=0 steps=" + std::to_string(F) + " -> " + canon(*s.obj).substr(0, 200));
+            delete s.obj;
+            keys = saved;
+        }
+    }
+    void replay_sweep(const std::map<std::string, std::string> &m) {
+        // the case string is "… sweep n=<n> placement=<p> step=<s>": re-run that n completely
+        int n = atoi(m.at("n").c_str()), pl = atoi(m.at("placement").c_str());
+        int F = m.count("step") ? atoi(m.at("step").c_str()) : 0;
+        std::vector<std::pair<K, int>> init; for (int i = 0; i < n; ++i) init.emplace_back(K(1000 + 4 * i), i % 2);
+        keys.clear(); for (int f = 0; f < std::max(F, 1); ++f) keys.push_back(pl == 0 ? K(1002 + 4 * f) : pl == 1 ? K(10 + f) : K(100000 + 3 * f));
+        queries.clear(); { std::set<K> q; for (K k : keys) { q.insert(k); q.insert(K(k + 1)); } for (auto &p : init) q.insert(p.first); q.insert(std::numeric_limits<K>::min()); queries.assign(q.begin(), q.end()); if (queries.size() > 40) queries.resize(40); }
+        Model model; Dyn *d = make_initial(init, model);
+        bool ok = check_state(*d, model, cfg_str + " sweep n=" + std::to_string(n) + " placement=" + std::to_string(pl) + " step=0");
+        for (int f = 0; f < F && ok; ++f) { apply(*d, model, Op{0, f, f % 2}); printf("  after step %d: %s\n", f + 1, canon(*d).substr(0, 300).c_str()); ok = check_state(*d, model, cfg_str + " sweep n=" + std::to_string(n) + " placement=" + std::to_string(pl) + " step=" + std::to_string(f + 1)); }
+        delete d;
+    }
+
     void replay(const std::map<std::string, std::string> &m) {
+        if (m.count("placement")) { replay_sweep(m); return; }
         auto init = parse_init(m.at("init"));
         Model model;
         Dyn *d = make_initial(init, model);
@@ -367,6 +413,7 @@ struct TypeEntry {
     const char *name; int tier;
     void (*run_bfs)(Run &, Cn &, int prop, DynCfg, int keyset, int init_id, int D, size_t max_states, int prefix);
     void (*run_rounds)(Run &, Cn &, int prop, DynCfg, int keyset, int R, int actions, size_t max_states);
+    void (*run_sweep)(Run &, Cn &, int prop, DynCfg, int max_n, int F, int placement);
     void (*replay)(Run &, Cn &, int prop, const std::map<std::string, std::string> &);
     int (*num_inits)(int keyset);
 };
@@ -421,6 +468,10 @@ struct Thunk {
         auto inits = initial_states<K>(ks_id);
         ex.bfs(inits[init_id], D, max_states, prefix);
     }
+    static void run_sweep(Run &r, Cn &c, int prop, DynCfg cfg, int max_n, int F, int placement) {
+        Explorer<K, V, PGMType> ex(r, c, prop, name(), cfg, keyset<K>(0));
+        ex.sweep(max_n, F, placement);
+    }
     static void run_rounds(Run &r, Cn &c, int prop, DynCfg cfg, int ks_id, int R, int actions, size_t max_states) {
         Explorer<K, V, PGMType> ex(r, c, prop, name(), cfg, keyset<K>(ks_id));
         ex.bfs_rounds(R, actions, max_states);
@@ -432,7 +483,7 @@ struct Thunk {
     }
     static int num_inits(int ks_id) { return int(initial_states<K>(ks_id).size()); }
 };
-#define TYPE(NAME, TIER, K, V, ...) [] { Thunk<K, V, __VA_ARGS__>::name() = NAME; return TypeEntry{NAME, TIER, &Thunk<K, V, __VA_ARGS__>::run_bfs, &Thunk<K, V, __VA_ARGS__>::run_rounds, &Thunk<K, V, __VA_ARGS__>::replay, &Thunk<K, V, __VA_ARGS__>::num_inits}; }()
+#define TYPE(NAME, TIER, K, V, ...) [] { Thunk<K, V, __VA_ARGS__>::name() = NAME; return TypeEntry{NAME, TIER, &Thunk<K, V, __VA_ARGS__>::run_bfs, &Thunk<K, V, __VA_ARGS__>::run_rounds, &Thunk<K, V, __VA_ARGS__>::run_sweep, &Thunk<K, V, __VA_ARGS__>::replay, &Thunk<K, V, __VA_ARGS__>::num_inits}; }()
 
 static std::vector<TypeEntry> types() {
     return {
@@ -444,7 +495,7 @@ static std::vector<TypeEntry> types() {
     };
 }
 
-struct Task { int type, keyset, init, D; DynCfg cfg; size_t max_states; int prefix = 0; int rounds = 0, actions = 0; };
+struct Task { int type, keyset, init, D; DynCfg cfg; size_t max_states; int prefix = 0; int rounds = 0, actions = 0; int sweep_n = 0, sweep_f = 0, placement = 0; };
 
 int main(int argc, char **argv) {
     auto opt = mc::parse_args(argc, argv);
@@ -472,7 +523,7 @@ int main(int argc, char **argv) {
     std::vector<DynCfg> cfgs_t = {{8, 1, 2}, {2, 3, 4}, {16, 1, 2}, {128, 1, 2}, {4, 2, 3}};
     int Dq = 8, Dt = 11;
 #ifdef VERIF_ASAN
-    Dq = 5; Dt = 7;
+    Dq = 4; Dt = 6;
 #endif
     if (opt.extra.count("D")) Dq = Dt = atoi(opt.extra["D"].c_str());
     std::vector<Task> tasks;
@@ -499,8 +550,17 @@ int main(int argc, char **argv) {
         if (thorough) for (auto &c : cfgs_t) add_cfg(c, int(t), Dt - 1, false, 0);
         // round-structured exploration: (cfg, key set with buffer_max_size+1 keys, rounds, actions per key)
         struct RoundSpec { DynCfg cfg; int ks, R, actions; };
+        bool asan_build = false;
+#ifdef VERIF_ASAN
+        asan_build = true;
+#endif
         std::vector<RoundSpec> rs = {{{2, 1, 2}, 0, thorough ? 7 : 5, 3}, {{4, 1, 2}, 4, thorough ? 4 : 3, 2}, {{4, 1, 2}, 4, 2, 3}, {{2, 2, 3}, 5, thorough ? 3 : 2, 2}, {{4, 1, 3}, 4, thorough ? 4 : 3, 2}};
         if (thorough) { rs.push_back({{2, 1, 3}, 0, 7, 3}); rs.push_back({{2, 2, 3}, 5, 2, 3}); }
+        if (asan_build) rs = {{{2, 1, 2}, 0, thorough ? 5 : 3, 3}, {{4, 1, 2}, 4, thorough ? 3 : 2, 2}};   // every copy is dozens of allocations under ASan
+        // size sweeps: bulk-load of 0..max_n distinct keys, then F fresh distinct inserts, three placements of the fresh keys
+        if (!asan_build || thorough)
+            for (auto &c : std::vector<DynCfg>{{2, 1, 2}, {4, 1, 2}, {2, 2, 3}, {8, 1, 2}, {4, 1, 0}})
+                for (int pl = 0; pl < 3; ++pl) { Task tk{int(t), 0, 0, 98, c, 0}; tk.sweep_n = thorough ? 140 : 70; tk.sweep_f = thorough ? 80 : 40; tk.placement = pl; tasks.push_back(tk); }
         for (auto &r : rs) { Task tk{int(t), r.ks, 0, 99, r.cfg, thorough ? size_t(4000000) : size_t(600000)}; tk.rounds = r.R; tk.actions = r.actions; tasks.push_back(tk); }
     }
     // largest tasks first
@@ -508,14 +568,15 @@ int main(int argc, char **argv) {
     run.run_tasks(tasks.size(), [&](uint64_t i) {
         auto &t = tasks[i];
         if (run.deadline_passed()) return;
-        if (t.rounds) ty[t.type].run_rounds(run, cn, prop, t.cfg, t.keyset, t.rounds, t.actions, t.max_states);
+        if (t.sweep_n) ty[t.type].run_sweep(run, cn, prop, t.cfg, t.sweep_n, t.sweep_f, t.placement);
+        else if (t.rounds) ty[t.type].run_rounds(run, cn, prop, t.cfg, t.keyset, t.rounds, t.actions, t.max_states);
         else ty[t.type].run_bfs(run, cn, prop, t.cfg, t.keyset, t.init, t.D, t.max_states, t.prefix);
     });
 
     mc::Run::EvidenceExtra ev;
     ev.states_counter = "distinct_canonical_states"; ev.transitions_counter = "transitions_executed"; ev.nontrivial_counter = "states_with_data_below_the_buffer";
     ev.rule = "breadth-first search over all histories of insert_or_assign(k,v)/erase(k), k from a key set of 4-7 colliding keys (adjacent keys, gaps, the extremes of the key type), v from 2 values, on the real DynamicPGMIndex copied per transition; "
-              "initial states: empty, every bulk-load of 1..3 sorted pairs with repeated keys, bulk-loads of 9 and 12 pairs landing two levels below the buffer, and non-initial starts reached by a fixed prefix of 11/15/19 round-robin inserts (so that the next merges cascade through three and four levels), plus round-structured search (one action out of {a,b,tombstone} per key for buffer_max_size+1 keys per round, so that every round flushes the buffer once; 2-7 rounds) which reaches merges into an existing deepest level where tombstones are dropped; configurations (base,buffer_level,index_level) with a 3-entry buffer and 4/8/16-entry levels so that depth-" + std::to_string(thorough ? Dt : Dq) +
+              "initial states: empty, every bulk-load of 1..3 sorted pairs with repeated keys, bulk-loads of 9 and 12 pairs landing two levels below the buffer, and non-initial starts reached by a fixed prefix of 11/15/19 round-robin inserts (so that the next merges cascade through three and four levels), plus round-structured search (one action out of {a,b,tombstone} per key for buffer_max_size+1 keys per round, so that every round flushes the buffer once; 2-7 rounds) which reaches merges into an existing deepest level where tombstones are dropped, plus size sweeps (bulk-load of 0..70 distinct keys followed by 40 inserts of fresh distinct keys, three placements) which hit every exact fit of a flush into the free room of a level; configurations (base,buffer_level,index_level) with a 3-entry buffer and 4/8/16-entry levels so that depth-" + std::to_string(thorough ? Dt : Dq) +
               " histories cascade through three levels and small levels own a PGM-index; key/value/index types arithmetic, pointer and std::string values. A state is a distinct canonical form (used_levels + per-level list of key/value-or-tombstone); after every transition the property's oracle runs against std::map" +
               (prop == 5 ? " (find, count, lower_bound for every alphabet key and its neighbours)" : prop == 6 ? " (iteration from begin() and from every lower_bound to end(), range() for every lo<=hi of the query alphabet, size(), empty())" : " (sortedness, capacities, empty levels beyond used_levels, per-level index built over exactly the level's keys and answering the search contract, emptied levels' indexes reset)") +
               ". Non-trivial: the state holds data in a level below the buffer.";
